@@ -16,8 +16,15 @@
   * `gl_wts_sum`, `gl_wts_pos`, `gl_pts_strictMono`, `gl_pts_mem`
   * `gl_pinned_sum`, `gl_pinned_wrong_on_default`   the originally pinned `weights *= 0.5` gives Σw = 1
                             whatever the interval (counterexample on the default [-1,1])
-  Clenshaw–Curtis (partial, DESIGN §7 C18): `cc_wts_endpoints`, `cc_wts_scale`; exactness for all n is
-  not proved (per-n test in the harness).
+  Clenshaw–Curtis, with `np.fft.ifft` replaced by its definition (`ccIdft`, the real part of the inverse DFT), so that the
+  whole rule is inside the model, for EVERY n ≥ 2:
+  * `cc_wts_sum`            the weights sum to b-a (roots-of-unity sums `sum_cos_roots`, `idft_sum`, `idft_zero`; the
+                            telescoping `sum_vbase`; the mirrored vectors `ccV_sum = 0`, `ccG_sum = s·wcc0`)
+  * `cc_pts_strictMono`, `cc_pts_mem`, `cc_pts_first = a`, `cc_pts_last = b`
+  * `cc_end_wts`, `cc_end_wts_pos`   closed form and positivity of the two end weights
+  * `cc_wts_endpoints`, `cc_wts_scale`  (post-processing, any ifft result)
+  partial (DESIGN §7 C18): positivity of the interior weights and exactness to degree n-1 for all n are not proved
+  (per-n oracle in the harness).
 -/
 import MudProof.RealInst
 import MudModel.Quadrature
@@ -25,6 +32,7 @@ import Mathlib.Algebra.BigOperators.Fin
 import Mathlib.Algebra.BigOperators.Intervals
 import Mathlib.Algebra.Polynomial.Eval.Degree
 import Mathlib.Analysis.SpecialFunctions.Integrals.Basic
+import Mathlib.RingTheory.RootsOfUnity.Complex
 import Mathlib.Tactic
 
 namespace Mud.C18
@@ -383,6 +391,294 @@ theorem cc_wts_endpoints (n : ℕ) (hn : 2 ≤ n) (wcc : ℕ → ℝ) (a b : ℝ
 theorem cc_wts_scale (n : ℕ) (wcc : ℕ → ℝ) (a b : ℝ) (i : Fin n) :
     ccWts n wcc a b i = ccWts n wcc (-1) 1 i * ((b - a) / 2) := by
   simp only [ccWts, frac_real]; push_cast; ring
+
+/-! ### Clenshaw–Curtis with the model's own inverse DFT -/
+
+/-- Σ_{k<s} cos(2π j k / s) = s if j = 0, else 0 (0 ≤ j < s) -/
+theorem sum_cos_roots (s j : ℕ) (hj : j < s) :
+    ∑ k ∈ range s, Real.cos (2 * Real.pi * ((j * k : ℕ) : ℝ) / (s : ℝ)) = if j = 0 then (s : ℝ) else 0 := by
+  have hs : 0 < s := by omega
+  have hsR : (s : ℝ) ≠ 0 := by positivity
+  by_cases h0 : j = 0
+  · subst h0; simp
+  · simp only [h0, if_false]
+    -- ζ = exp(2πi j / s) is an s-th root of unity different from 1
+    set ζ : ℂ := Complex.exp (2 * Real.pi * Complex.I * ((j : ℂ) / (s : ℂ))) with hζ
+    obtain ⟨ω, hω, hprim⟩ : ∃ ω : ℂ, ω = Complex.exp (2 * Real.pi * Complex.I / (s : ℂ)) ∧ IsPrimitiveRoot ω s :=
+      ⟨_, rfl, Complex.isPrimitiveRoot_exp s (by omega)⟩
+    have hζpow : ζ = ω ^ j := by
+      rw [hζ, hω, ← Complex.exp_nat_mul]; congr 1; field_simp
+    have hζ1 : ζ ≠ 1 := by
+      rw [hζpow]; exact hprim.pow_ne_one_of_pos_of_lt (by omega) hj
+    have hζs : ζ ^ s = 1 := by
+      rw [hζpow, ← pow_mul, mul_comm, pow_mul, hprim.pow_eq_one, one_pow]
+    have hgeom : ∑ k ∈ range s, ζ ^ k = 0 := by
+      have := mul_geom_sum ζ s
+      rw [hζs, sub_self] at this
+      rcases mul_eq_zero.mp this with h | h
+      · exact absurd (sub_eq_zero.mp h) hζ1
+      · exact h
+    have hre : ∀ k : ℕ, Real.cos (2 * Real.pi * ((j * k : ℕ) : ℝ) / (s : ℝ)) = (ζ ^ k).re := by
+      intro k
+      rw [hζ, ← Complex.exp_nat_mul]
+      have : (k : ℂ) * (2 * Real.pi * Complex.I * ((j : ℂ) / (s : ℂ)))
+          = ((2 * Real.pi * ((j * k : ℕ) : ℝ) / (s : ℝ) : ℝ) : ℂ) * Complex.I := by
+        push_cast; field_simp
+      rw [this, Complex.exp_ofReal_mul_I_re]
+    rw [Finset.sum_congr rfl (fun k _ => hre k), ← Complex.re_sum, hgeom]; simp
+
+theorem ccIdft_real (s : ℕ) (h : Fin s → ℝ) (k : ℕ) :
+    ccIdft s Real.pi h k = (∑ j : Fin s, h j * Real.cos (2 * Real.pi * ((j.val * k : ℕ) : ℝ) / (s : ℝ))) / (s : ℝ) := by
+  simp [ccIdft, vsum_eq_sum]
+
+/-- the inverse DFT sums to the zero-frequency input -/
+theorem idft_sum (s : ℕ) (hs : 0 < s) (h : Fin s → ℝ) :
+    ∑ k ∈ range s, ccIdft s Real.pi h k = h ⟨0, hs⟩ := by
+  have hsR : (s : ℝ) ≠ 0 := by positivity
+  simp only [ccIdft_real]
+  rw [← Finset.sum_div, Finset.sum_comm]
+  have : ∀ j : Fin s, ∑ k ∈ range s, h j * Real.cos (2 * Real.pi * ((j.val * k : ℕ) : ℝ) / (s : ℝ))
+      = h j * (if j.val = 0 then (s : ℝ) else 0) := by
+    intro j; rw [← Finset.mul_sum, sum_cos_roots s j.val j.isLt]
+  rw [Finset.sum_congr rfl (fun j _ => this j)]
+  rw [Finset.sum_eq_single (⟨0, hs⟩ : Fin s)]
+  · simp; field_simp
+  · intro j _ hj
+    have : j.val ≠ 0 := fun h0 => hj (Fin.ext h0)
+    simp [this]
+  · simp
+
+/-- entry 0 of the inverse DFT is the mean of the input -/
+theorem idft_zero (s : ℕ) (h : Fin s → ℝ) : ccIdft s Real.pi h 0 = (∑ j, h j) / (s : ℝ) := by
+  simp [ccIdft_real]
+
+
+/-- the mirrored vector `x[s - k] = x[k]` summed: both halves in terms of the base entries -/
+theorem sum_mirror (s : ℕ) (hs : 0 < s) (B : ℕ → ℝ) :
+    ∑ i : Fin s, (if i.val ≤ s / 2 then B i.val else B (s - i.val))
+      = ∑ k ∈ range (s / 2 + 1), B k + ∑ k ∈ Ico 1 (s - s / 2), B k := by
+  have hp : s / 2 + 1 ≤ s := by omega
+  rw [sum_fin_eq_range (fun i => if i ≤ s / 2 then B i else B (s - i))]
+  rw [← Finset.sum_range_add_sum_Ico _ hp]
+  congr 1
+  · apply Finset.sum_congr rfl; intro i hi
+    have : i ≤ s / 2 := by have := Finset.mem_range.mp hi; omega
+    simp [this]
+  · have h1 : ∑ i ∈ Ico (s / 2 + 1) s, (if i ≤ s / 2 then B i else B (s - i))
+        = ∑ i ∈ Ico (s / 2 + 1) s, B (s - i) := by
+      apply Finset.sum_congr rfl; intro i hi
+      have : ¬ i ≤ s / 2 := by have := (Finset.mem_Ico.mp hi).1; omega
+      simp [this]
+    rw [h1, Finset.sum_Ico_reflect B (s / 2 + 1) (by omega : s ≤ s + 1)]
+    congr 1
+    have a1 : s + 1 - s = 1 := by omega
+    have a2 : s + 1 - (s / 2 + 1) = s - s / 2 := by omega
+    rw [a1, a2]
+
+/-- telescoping: Σ_{k<p} 2/(1-4k²) = 1 + 1/(2p-1) -/
+theorem sum_vbase (p : ℕ) (hp : 1 ≤ p) :
+    ∑ k ∈ range p, (2 : ℝ) / (1 - 4 * ((k * k : ℕ) : ℝ)) = 1 + 1 / (2 * (p : ℝ) - 1) := by
+  induction p, hp using Nat.le_induction with
+  | base => norm_num
+  | succ p hp ih =>
+    rw [Finset.sum_range_succ, ih]
+    have hp1 : (1 : ℝ) ≤ p := by exact_mod_cast hp
+    have h1 : (2 * (p : ℝ) - 1) ≠ 0 := by linarith
+    have h2 : (2 * ((p : ℝ) + 1) - 1) ≠ 0 := by linarith
+    have h3 : (2 * (p : ℝ) + 1) ≠ 0 := by linarith
+    have key : (2 : ℝ) / (1 - 4 * ((p : ℝ) * p)) = 1 / (2 * (p : ℝ) + 1) - 1 / (2 * (p : ℝ) - 1) := by
+      have : (1 - 4 * ((p : ℝ) * p)) = -((2 * (p : ℝ) + 1) * (2 * (p : ℝ) - 1)) := by ring
+      rw [this]; field_simp; ring
+    push_cast
+    rw [key]
+    have h4 : 2 * ((p : ℝ) + 1) - 1 = 2 * (p : ℝ) + 1 := by ring
+    rw [h4]; ring
+
+
+theorem sum_Ico_one (f : ℕ → ℝ) (m : ℕ) (hm : 1 ≤ m) : ∑ k ∈ Ico 1 m, f k = ∑ k ∈ range m, f k - f 0 := by
+  rw [Finset.sum_Ico_eq_sub f hm]; simp
+
+/-- the `v` vector of Clenshaw–Curtis sums to zero -/
+theorem ccV_sum (s : ℕ) (hs : 2 ≤ s) : ∑ i : Fin s, ccV (α := ℝ) s i = 0 := by
+  obtain ⟨p, hp, hdiv, hcase⟩ : ∃ p, 1 ≤ p ∧ s / 2 = p ∧ (s = 2 * p ∨ s = 2 * p + 1) := ⟨s / 2, by omega, rfl, by omega⟩
+  have hp1 : (1 : ℝ) ≤ p := by exact_mod_cast hp
+  have hden : (2 * (p : ℝ) - 1) ≠ 0 := by linarith
+  unfold ccV
+  rw [sum_mirror s (by omega) (fun k => ccVBase (α := ℝ) s k), hdiv]
+  have hlow : ∑ k ∈ range p, ccVBase (α := ℝ) s k = 1 + 1 / (2 * (p : ℝ) - 1) := by
+    rw [← sum_vbase p hp]; apply Finset.sum_congr rfl; intro k hk
+    have : k < s / 2 := by have := Finset.mem_range.mp hk; omega
+    simp [ccVBase, this]
+  have hB : ccVBase (α := ℝ) s p = ((s : ℝ) - 3) / (2 * (p : ℝ) - 1) - 1 := by
+    have : ¬ p < s / 2 := by omega
+    simp [ccVBase, hdiv]
+  have h0 : ccVBase (α := ℝ) s 0 = 2 := by
+    have : 0 < s / 2 := by omega
+    simp [ccVBase, this]
+  rcases hcase with h | h
+  · have e2 : s - p = p := by omega
+    have hsR : (s : ℝ) = 2 * p := by exact_mod_cast h
+    rw [e2, Finset.sum_range_succ, sum_Ico_one _ p hp, hlow, hB, h0, hsR]
+    field_simp; ring
+  · have e2 : s - p = p + 1 := by omega
+    have hsR : (s : ℝ) = 2 * p + 1 := by exact_mod_cast h
+    rw [e2, sum_Ico_one _ (p + 1) (by omega), Finset.sum_range_succ, hlow, hB, h0, hsR]
+    field_simp; ring
+
+/-- the `g` vector sums to `s * wcc0` -/
+theorem ccG_sum (s : ℕ) (hs : 2 ≤ s) : ∑ i : Fin s, ccG (α := ℝ) s i = (s : ℝ) * ccW0 s := by
+  obtain ⟨p, hp, hdiv, hcase⟩ : ∃ p, 1 ≤ p ∧ s / 2 = p ∧ (s = 2 * p ∨ s = 2 * p + 1) := ⟨s / 2, by omega, rfl, by omega⟩
+  unfold ccG
+  rw [sum_mirror s (by omega) (fun k => ccGBase (α := ℝ) s k), hdiv]
+  have hlow : ∑ k ∈ range p, ccGBase (α := ℝ) s k = -((p : ℝ) * ccW0 s) := by
+    have : ∀ k ∈ range p, ccGBase (α := ℝ) s k = -(ccW0 s) := by
+      intro k hk
+      have : k < s / 2 := by have := Finset.mem_range.mp hk; omega
+      simp [ccGBase, this]
+    rw [Finset.sum_congr rfl this]; simp
+  have hB : ccGBase (α := ℝ) s p = ccW0 s * (((2 - s % 2) * s - 1 : ℕ) : ℝ) := by
+    have : ¬ p < s / 2 := by omega
+    simp [ccGBase, this]
+  have h0 : ccGBase (α := ℝ) s 0 = -(ccW0 s) := by
+    have : 0 < s / 2 := by omega
+    simp [ccGBase, this]
+  rcases hcase with h | h
+  · have e2 : s - p = p := by omega
+    have hm : s % 2 = 0 := by omega
+    have hnat : (2 - s % 2) * s - 1 = 4 * p - 1 := by rw [hm, h]; omega
+    have hc : ((4 * p - 1 : ℕ) : ℝ) = 4 * (p : ℝ) - 1 := by
+      rw [Nat.cast_sub (by omega)]; push_cast; ring
+    have hsR : (s : ℝ) = 2 * p := by exact_mod_cast h
+    rw [e2, Finset.sum_range_succ, sum_Ico_one _ p hp, hlow, hB, h0, hnat, hc, hsR]; ring
+  · have e2 : s - p = p + 1 := by omega
+    have hm : s % 2 = 1 := by omega
+    have hnat : (2 - s % 2) * s - 1 = 2 * p := by rw [hm, h]; omega
+    have hsR : (s : ℝ) = 2 * p + 1 := by exact_mod_cast h
+    rw [e2, sum_Ico_one _ (p + 1) (by omega), Finset.sum_range_succ, hlow, hB, h0, hnat, hsR]; push_cast; ring
+
+
+theorem ccH_sum (s : ℕ) (hs : 2 ≤ s) : ∑ i : Fin s, ccH (α := ℝ) s i = (s : ℝ) * ccW0 s := by
+  unfold ccH; rw [Finset.sum_add_distrib, ccV_sum s hs, ccG_sum s hs]; ring
+
+theorem ccH_zero (s : ℕ) (hs : 2 ≤ s) : ccH (α := ℝ) s ⟨0, by omega⟩ = 2 - ccW0 s := by
+  have : 0 < s / 2 := by omega
+  simp [ccH, ccV, ccG, ccVBase, ccGBase, this]; ring
+
+theorem ccH_one : ccH (α := ℝ) 1 ⟨0, by omega⟩ = 1 := by
+  simp [ccH, ccV, ccG, ccVBase, ccGBase]; norm_num
+
+/-- the flip and the duplicated end point: Σ weights = (Σ_{j<s} wcc j + wcc 0) (b-a)/2 -/
+theorem cc_wts_sum_general (n : ℕ) (hn : 1 ≤ n) (wcc : ℕ → ℝ) (a b : ℝ) :
+    ∑ i : Fin n, ccWts n wcc a b i = (∑ j ∈ range (n - 1), wcc j + wcc 0) * ((b - a) / 2) := by
+  obtain ⟨s, rfl⟩ : ∃ s, n = s + 1 := ⟨n - 1, by omega⟩
+  simp only [ccWts, frac_real, Nat.add_sub_cancel]
+  rw [← Finset.sum_mul]
+  have hrefl : ∑ i : Fin (s + 1), (if s - i.val = s then wcc 0 else wcc (s - i.val))
+      = ∑ j ∈ range (s + 1), (if j = s then wcc 0 else wcc j) := by
+    rw [sum_fin_eq_range (fun i => if s - i = s then wcc 0 else wcc (s - i))]
+    have := Finset.sum_range_reflect (fun j => if j = s then wcc 0 else wcc j) (s + 1)
+    simpa using this
+  rw [hrefl, Finset.sum_range_succ]
+  have : ∑ j ∈ range s, (if j = s then wcc 0 else wcc j) = ∑ j ∈ range s, wcc j := by
+    apply Finset.sum_congr rfl; intro j hj
+    have : j ≠ s := by have := Finset.mem_range.mp hj; omega
+    simp [this]
+  rw [this]; simp only [if_true]; norm_num; left; ring
+
+/-- **Clenshaw–Curtis weights sum to the length of the interval, for every point count `n ≥ 2`** — with the inverse FFT
+    replaced by its definition (`ccIdft`), nothing about the rule is a parameter any more. -/
+theorem cc_wts_sum (n : ℕ) (hn : 2 ≤ n) (a b : ℝ) :
+    ∑ i : Fin n, ccWts n (ccIdft (n - 1) Real.pi (ccH (n - 1))) a b i = b - a := by
+  rw [cc_wts_sum_general n (by omega)]
+  have hs : 0 < n - 1 := by omega
+  rw [idft_sum (n - 1) hs, idft_zero]
+  by_cases h1 : n - 1 = 1
+  · have e : ccH (α := ℝ) (n - 1) ⟨0, hs⟩ = 1 := by
+      have : ∀ s (h : 0 < s), s = 1 → ccH (α := ℝ) s ⟨0, h⟩ = 1 := by
+        intro s h e; subst e; exact ccH_one
+      exact this _ hs h1
+    have e2 : ∑ j : Fin (n - 1), ccH (α := ℝ) (n - 1) j = 1 := by
+      have : ∀ s (h : 0 < s), s = 1 → ∑ j : Fin s, ccH (α := ℝ) s j = 1 := by
+        intro s h e; subst e; simpa using ccH_one
+      exact this _ hs h1
+    rw [e, e2, h1]; push_cast; ring
+  · have h2 : 2 ≤ n - 1 := by omega
+    have hsR : ((n - 1 : ℕ) : ℝ) ≠ 0 := by positivity
+    rw [ccH_zero (n - 1) h2, ccH_sum (n - 1) h2]
+    field_simp; ring
+
+
+/-- the angle of node `i`: `π (n-1-i)/(n-1)` lies in `[0, π]` and decreases with `i` -/
+theorem cc_angle_mem (n : ℕ) (hn : 2 ≤ n) (i : Fin n) :
+    Real.pi * ((n - 1 - i.val : ℕ) : ℝ) / ((n - 1 : ℕ) : ℝ) ∈ Set.Icc 0 Real.pi := by
+  have hs : (0 : ℝ) < ((n - 1 : ℕ) : ℝ) := by exact_mod_cast (by omega : 0 < n - 1)
+  have hle : ((n - 1 - i.val : ℕ) : ℝ) ≤ ((n - 1 : ℕ) : ℝ) := by exact_mod_cast Nat.sub_le _ _
+  have h0 : (0 : ℝ) ≤ ((n - 1 - i.val : ℕ) : ℝ) := by positivity
+  constructor
+  · have := Real.pi_pos; positivity
+  · rw [div_le_iff₀ hs]; exact mul_le_mul_of_nonneg_left hle Real.pi_pos.le
+
+theorem cc_pts_strictMono (n : ℕ) (hn : 2 ≤ n) (a b : ℝ) (hab : a < b) :
+    StrictMono (ccPts n Real.pi a b) := by
+  intro i j hij
+  have hs : (0 : ℝ) < ((n - 1 : ℕ) : ℝ) := by exact_mod_cast (by omega : 0 < n - 1)
+  have hlt : ((n - 1 - j.val : ℕ) : ℝ) < ((n - 1 - i.val : ℕ) : ℝ) := by
+    have : i.val < j.val := hij
+    exact_mod_cast (by omega : n - 1 - j.val < n - 1 - i.val)
+  have hang : Real.pi * ((n - 1 - j.val : ℕ) : ℝ) / ((n - 1 : ℕ) : ℝ)
+      < Real.pi * ((n - 1 - i.val : ℕ) : ℝ) / ((n - 1 : ℕ) : ℝ) := by
+    apply div_lt_div_of_pos_right _ hs
+    exact mul_lt_mul_of_pos_left hlt Real.pi_pos
+  have hcos := Real.strictAntiOn_cos (cc_angle_mem n hn j) (cc_angle_mem n hn i) hang
+  simp only [ccPts, cos_real, frac_real]
+  have : (0 : ℝ) < b - a := by linarith
+  nlinarith
+
+theorem cc_pts_mem (n : ℕ) (hn : 2 ≤ n) (a b : ℝ) (hab : a < b) (i : Fin n) :
+    ccPts n Real.pi a b i ∈ Set.Icc a b := by
+  simp only [ccPts, cos_real, frac_real]
+  have h1 := Real.neg_one_le_cos (Real.pi * ((n - 1 - i.val : ℕ) : ℝ) / ((n - 1 : ℕ) : ℝ))
+  have h2 := Real.cos_le_one (Real.pi * ((n - 1 - i.val : ℕ) : ℝ) / ((n - 1 : ℕ) : ℝ))
+  have : (0 : ℝ) < b - a := by linarith
+  constructor <;> nlinarith
+
+theorem cc_pts_first (n : ℕ) (hn : 2 ≤ n) (a b : ℝ) : ccPts n Real.pi a b ⟨0, by omega⟩ = a := by
+  have hs : ((n - 1 : ℕ) : ℝ) ≠ 0 := by
+    have : (0 : ℝ) < ((n - 1 : ℕ) : ℝ) := by exact_mod_cast (by omega : 0 < n - 1)
+    exact this.ne'
+  simp only [ccPts, cos_real, frac_real, Nat.sub_zero]
+  rw [mul_div_assoc, div_self hs, mul_one, Real.cos_pi]; ring
+
+theorem cc_pts_last (n : ℕ) (_hn : 2 ≤ n) (a b : ℝ) : ccPts n Real.pi a b ⟨n - 1, by omega⟩ = b := by
+  simp only [ccPts, cos_real, frac_real, Nat.sub_self]
+  simp; ring
+
+/-- the two end weights are `wcc0 (b-a)/2 = (b-a) / (2 (s² - 1 + s mod 2))`, positive (`n ≥ 3`) -/
+theorem cc_end_wts (n : ℕ) (hn : 3 ≤ n) (a b : ℝ) :
+    ccWts n (ccIdft (n - 1) Real.pi (ccH (n - 1))) a b ⟨0, by omega⟩ = ccW0 (n - 1) * ((b - a) / 2) := by
+  have hsR : ((n - 1 : ℕ) : ℝ) ≠ 0 := by
+    have : (0 : ℝ) < ((n - 1 : ℕ) : ℝ) := by exact_mod_cast (by omega : 0 < n - 1)
+    exact this.ne'
+  simp only [ccWts, frac_real, Nat.sub_zero, if_true]
+  rw [idft_zero, ccH_sum (n - 1) (by omega)]
+  field_simp
+  push_cast; ring
+
+theorem cc_end_wts_pos (n : ℕ) (hn : 3 ≤ n) (a b : ℝ) (hab : a < b) :
+    0 < ccWts n (ccIdft (n - 1) Real.pi (ccH (n - 1))) a b ⟨0, by omega⟩ := by
+  rw [cc_end_wts n hn]
+  have h1 : (0 : ℝ) < (((n - 1) * (n - 1) - 1 + (n - 1) % 2 : ℕ) : ℝ) := by
+    have : 0 < (n - 1) * (n - 1) - 1 + (n - 1) % 2 := by
+      have : 2 * 2 ≤ (n - 1) * (n - 1) := Nat.mul_le_mul (by omega) (by omega)
+      omega
+    exact_mod_cast this
+  have : (0 : ℝ) < ccW0 (α := ℝ) (n - 1) := by unfold ccW0; positivity
+  have : (0 : ℝ) < b - a := by linarith
+  positivity
+
+/-- non-vacuity: the three-point rule on [0,2] is Simpson's 1/3, 4/3, 1/3 at the ends, and sums to 2 -/
+example : ∑ i : Fin 3, ccWts 3 (ccIdft 2 Real.pi (ccH 2)) (0 : ℝ) 2 i = 2 - 0 := cc_wts_sum 3 (by norm_num) 0 2
+
 
 /-- non-vacuity: the 3-point Simpson rule on [0,2] -/
 example : ∑ i, simpsonWts 3 (0 : ℝ) 2 i * gridPts 3 0 2 i ^ 3 = F 3 2 - F 3 0 :=
